@@ -39,7 +39,7 @@ var round10Explain = map[string]string{
 	"C08": "(unmatched.guard-same-trie) each pattern validation is switched on by the length of the trie it validates",
 	"C09": "(truncation-not-clean-end) no peer's request loop treats io.ErrUnexpectedEOF like io.EOF",
 	"C12": "(timeout.recorded-unconditional) every accepted timeout is recorded in the request context, zero included",
-	"C14": "(goaway.boundary) streams are aborted by GOAWAY only when their id is GREATER than the last-stream-id, everywhere",
+	"C14": "(client.body-never-nil) a nil request body is replaced by http.NoBody before the tracing round tripper wraps it (defect D22); (goaway.boundary) streams are aborted by GOAWAY only when their id is GREATER than the last-stream-id, everywhere",
 	"C15": "(accumulate.frame-gets-prefix) the frame buffer is fed with the accumulated 9-byte header; (hpack.every-frame-parsed) emitFrame runs every frame through the framer (the HPACK decoder is shared by the direction)",
 	"C18": "(no-input-mutation) ConvertProtoHeaderToMetadata does not write into the header list it converts",
 	"C19": "(client-limit.always-set) expandCases sets the client's receive limit independently of the TLS mode",
@@ -656,4 +656,82 @@ func readPassthroughRule(p *Prog, r *Report) {
 	}
 	r.Check(n >= 5 && bad == "", "read.passthrough", "R-PASSTHRU", pos, fmt.Sprintf("%d Read methods of the decompressor wrappers, none manufactures an unexpected-EOF", n),
 		"a decompressor wrapper's Read turns the library's result into io.ErrUnexpectedEOF:"+bad+" the matching compressor may legitimately produce no bytes at all for an empty message (framed snappy does), so `nothing was produced` is not `the stream was cut` — compress(\"\") no longer decompresses")
+}
+
+// ---------- defect found while reviewing rounds 9/10 (D22) ----------
+
+// clientBodyNeverNilRule (D22): in TracingRoundTripper the request body handed
+// to the tracing reader cannot be nil: a nil Body (a GET built without body, as
+// when http.Client follows a 302) is replaced by http.NoBody first.
+func clientBodyNeverNilRule(p *Prog, r *Report) {
+	outer := p.Func(pkgTr, "", "TracingRoundTripper")
+	if outer == nil {
+		r.Undecided("client.body-never-nil", "R-NIL", "TracingRoundTripper not found")
+		return
+	}
+	r.Func(funcName(outer))
+	n := 0
+	bad := ""
+	for _, cl := range withClosures(outer) {
+		for _, in := range findInstrs(cl, func(in ssa.Instruction) bool {
+			c := callCommon(in)
+			return c != nil && c.StaticCallee() != nil && c.StaticCallee().Name() == "newRequestReader"
+		}) {
+			n++
+			r.Sites++
+			// a store of http.NoBody into the Body field on the Body == nil edge precedes the call
+			ok := precededByOnNilEdge(cl, in)
+			if !ok {
+				bad += " the body passed at " + p.InstrPos(in) + " can be nil;"
+			}
+		}
+	}
+	r.Check(n >= 1 && bad == "", "client.body-never-nil", "R-NIL", p.Pos(outer.Pos()), "a nil request body is replaced by http.NoBody before it is wrapped",
+		"TracingRoundTripper wraps a request body that may be nil:"+bad+" the transport probes the wrapped body and the tracing reader dereferences the nil reader — a server under test that answers 302 makes http.Client follow with a body-less GET and the reference client crashes inside a net/http goroutine")
+}
+
+func precededByOnNilEdge(fn *ssa.Function, call ssa.Instruction) bool {
+	found := false
+	eachInstr(fn, func(in ssa.Instruction) {
+		st, ok := in.(*ssa.Store)
+		if !ok {
+			return
+		}
+		fa, ok := st.Addr.(*ssa.FieldAddr)
+		if !ok || fieldName(fa.X.Type(), fa.Field) != "Body" {
+			return
+		}
+		isNoBody := false
+		for v := range operandClosure(st.Val) {
+			if g, ok := v.(*ssa.Global); ok && g.Pkg != nil && g.Pkg.Pkg.Path() == "net/http" && g.Name() == "NoBody" {
+				isNoBody = true
+			}
+		}
+		if !isNoBody {
+			return
+		}
+		if !guardedBy(in, func(a Atom) bool {
+			m, isNil := nilTestOn(a, func(x ssa.Value) bool {
+				f := loadedField(canon(x))
+				return f != nil && f.Name() == "Body"
+			})
+			return m && isNil
+		}) {
+			return
+		}
+		if reachesInstr(in, call) {
+			found = true
+		}
+	})
+	return found
+}
+
+func init() {
+	round10Rules["C14"] = append(round10Rules["C14"], clientBodyNeverNilRule)
+	addMutants(
+		Mutant{ID: "C14-D22-nil-request-body", Prop: "C14", File: "internal/tracer/middleware.go",
+			Old:    "\t\tif req.Body == nil {\n\t\t\t// e.g. a GET built without a body (as when a redirect is followed)\n\t\t\treq.Body = http.NoBody\n\t\t}\n",
+			New:    "",
+			Expect: []string{"client.body-never-nil"}, Note: "original defect D22: a nil request body crashes the tracing reader"},
+	)
 }
